@@ -173,31 +173,59 @@ def range_validation_present(ix):
     return False
 
 
+def _origin(fn, name):
+    """Where a local comes from: a parameter keeps its name; a local assigned exactly once is its value's text."""
+    params = {a.arg for a in fn.args.args + fn.args.kwonlyargs + fn.args.posonlyargs}
+    if name in params:
+        return name
+    vals = [n.value for n in ast.walk(fn) if isinstance(n, ast.Assign) and len(n.targets) == 1 and isinstance(n.targets[0], ast.Name) and n.targets[0].id == name]
+    if len(vals) == 1:
+        return u(vals[0])
+    return None
+
+
+def _if_raises(scope, template, b):
+    """An `if <template>: ... raise` under `scope` (binding extended consistently); returns the binding or None."""
+    from .core import _pat, tmatch
+
+    pat = _pat(template)
+    for r in scope if isinstance(scope, list) else [scope]:
+        for n in ast.walk(r):
+            if isinstance(n, ast.If) and any(isinstance(x, ast.Raise) for x in n.body):
+                bb = dict(b)
+                if tmatch(pat, n.test, bb):
+                    return bb
+    return None
+
+
+def _level_walk(fn):
+    """(loop, level variable, dense arm, compressed arm) of the loop over all levels with the dense/compressed
+    dispatch on the level's mode; local names are free."""
+    for n in ast.walk(fn):
+        if isinstance(n, ast.For) and isinstance(n.target, ast.Name) and isinstance(n.iter, ast.Call) and u(n.iter.func) == "range" and len(n.iter.args) == 1:
+            arg = n.iter.args[0]
+            org = _origin(fn, arg.id) if isinstance(arg, ast.Name) else u(arg)
+            if org is None or not str(org).endswith("order"):
+                continue
+            lv = n.target.id
+            for m in ast.walk(n):
+                if isinstance(m, ast.If) and re.fullmatch(rf"\w+\[{lv}\] == (Mode\.dense|0)", u(m.test)):
+                    if len(m.orelse) == 1 and isinstance(m.orelse[0], ast.If) and re.fullmatch(rf"\w+\[{lv}\] == (Mode\.compressed|1)", u(m.orelse[0].test)):
+                        return n, lv, m.body, m.orelse[0].body
+            return n, lv, None, None
+    return None, None, None, None
+
+
 def rule_structure_walkers(ctx, ix):
     """Sibling agreement of the four functions that walk the stored structure level by level
     (taco_structure_to_cffi, Tensor.taco_indices, Tensor.taco_vals, Tensor.items): the number of
     positions is multiplied by the level's own dimension at a dense level and replaced by the length of
     crd (= last pos entry) at a compressed level; pos has positions + 1 entries, crd pos[-1] entries,
-    vals one per position of the last level; items visits [pos[p], pos[p+1]) and position*dim + index."""
+    vals one per position of the last level; items visits [pos[p], pos[p+1]) and position*dim + index.
+    Clauses are templates with metavariables for local names (renaming a local changes nothing)."""
+    from .core import tfind, tsolve
+
     ctx.rule("C09.structure-walkers", "writer, validator and readers agree on the size and addressing of every level", min_instances=10)
-
-    def level_loop(fn):
-        for n in ast.walk(fn):
-            if isinstance(n, ast.For) and isinstance(n.target, ast.Name) and u(n.iter) in ("range(order)", "range(cffi_tensor.order)", "range(self.order)"):
-                return n
-        return None
-
-    def arms(loop, lv):
-        dense = comp = None
-        for n in ast.walk(loop):
-            if isinstance(n, ast.If):
-                t = u(n.test)
-                if re.fullmatch(rf"(modes|mode_types)\[{lv}\] == (Mode\.dense|0)", t):
-                    dense = n.body
-                    if len(n.orelse) == 1 and isinstance(n.orelse[0], ast.If) and re.fullmatch(rf"(modes|mode_types)\[{lv}\] == (Mode\.compressed|1)", u(n.orelse[0].test)):
-                        comp = n.orelse[0].body
-                    break
-        return dense, comp
 
     def check(key, cond, msg):
         ctx.instance("C09.structure-walkers")
@@ -206,57 +234,100 @@ def rule_structure_walkers(ctx, ix):
         else:
             ctx.fail("C09.structure-walkers", key, msg)
 
+    DIMS = ("dimensions", "self.dimensions")
+    ORD = ("mode_ordering", "self.mode_ordering")
+    CI = ("tensor_cdefs.cast('int32_t***', self.cffi_tensor.indices)",)
+    CV = ("tensor_cdefs.cast('double*', self.cffi_tensor.vals)",)
+
+    def origins_ok(fn, bind, want):
+        return all(_origin(fn, bind[mv]) in allowed for mv, allowed in want.items() if mv in bind)
+
     table = [
         ("compile/_cffi_ownership.py:taco_structure_to_cffi", ix.func("tensora.compile._cffi_ownership.taco_structure_to_cffi").node),
         ("tensor.py:Tensor.taco_indices", ix.func(f"{T_MOD}.Tensor.taco_indices").node),
         ("tensor.py:Tensor.taco_vals", ix.func(f"{T_MOD}.Tensor.taco_vals").node),
     ]
     for key, fn in table:
-        loop = level_loop(fn)
+        loop, lv, dense, comp = _level_walk(fn)
         if loop is None:
             check(key + ":level loop", False, "no loop over all levels")
             continue
-        lv = loop.target.id
-        dense, comp = arms(loop, lv)
         if dense is None or comp is None:
             check(key + ":mode dispatch", False, "no dense/compressed dispatch on the level's mode")
             continue
-        dtxt = [u(x) for x in dense]
-        ctxt = " ; ".join(u(x) for x in comp)
+        b0 = {"_V_lv": lv}
+        r = tsolve([fn], ["_V_nnz = 1"], b0)
+        rd = None
+        if r is not None:
+            for _n, bb in tfind(fn.body, "_V_nnz = 1", b0):
+                rd = tsolve(dense, ["_V_nnz *= _V_dims[_V_ord[_V_lv]]"], bb)
+                if rd is not None:
+                    break
+        ok = rd is not None and origins_ok(fn, rd[0], {"_V_dims": DIMS, "_V_ord": ORD})
         check(
             key + ":dense level multiplies positions by the level's own dimension",
-            f"nnz *= dimensions[mode_ordering[{lv}]]" in dtxt,
-            f"dense arm is {dtxt}: positions must be multiplied by dimensions[mode_ordering[level]]",
+            ok,
+            f"dense arm is {[u(x) for x in dense]}: the running position count (initialised to 1) must be multiplied by dimensions[mode_ordering[level]]",
         )
+        if not ok:
+            continue
+        bind = rd[0]
         if "taco_structure_to_cffi" in key:
-            check(key + ":compressed level", "nnz = len(crd)" in ctxt and "len(pos) != nnz + 1" in ctxt and "len(crd) != pos[-1]" in ctxt,
+            rc = tsolve(comp, ["_V_pos = indices[_V_lv][0]", "_V_crd = indices[_V_lv][1]", "_V_nnz = len(_V_crd)"], bind)
+            good = rc is not None and _if_raises(comp, "len(_V_pos) != _V_nnz + 1", rc[0]) is not None and _if_raises(comp, "len(_V_crd) != _V_pos[-1]", rc[0]) is not None
+            check(key + ":compressed level", good,
                   "compressed arm does not validate len(pos) == positions + 1, len(crd) == pos[-1] and continue with len(crd) positions")
+            after = fn.body[fn.body.index(loop) + 1 :] if loop in fn.body else fn.body
+            check("compile/_cffi_ownership.py:taco_structure_to_cffi:one value per position", _if_raises(after, "len(vals) != _V_nnz", bind) is not None,
+                  "length of vals is not validated against the positions of the last level")
         elif "taco_indices" in key:
-            check(key + ":compressed level",
-                  re.search(rf"pos = list\(cffi_indexes\[{lv}\]\[0\]\[0:nnz \+ 1\]\)", ctxt) is not None
-                  and re.search(rf"crd = list\(cffi_indexes\[{lv}\]\[1\]\[0:pos\[-1\]\]\)", ctxt) is not None
-                  and "nnz = len(crd)" in ctxt and "indices.append([pos, crd])" in ctxt,
+            rc = tsolve(comp, ["_V_pos = list(_V_ci[_V_lv][0][0:_V_nnz + 1])", "_V_crd = list(_V_ci[_V_lv][1][0:_V_pos[-1]])", "_V_nnz = len(_V_crd)", "_V_out.append([_V_pos, _V_crd])"], bind)
+            check(key + ":compressed level", rc is not None and origins_ok(fn, rc[0], {"_V_ci": CI}),
                   "compressed arm does not read positions + 1 pos entries and pos[-1] crd entries, or does not continue with len(crd) positions")
         else:
-            check(key + ":compressed level", re.search(rf"nnz = cffi_indexes\[{lv}\]\[0\]\[nnz\]", ctxt) is not None,
+            rc = tsolve(comp, ["_V_nnz = _V_ci[_V_lv][0][_V_nnz]"], bind)
+            check(key + ":compressed level", rc is not None and origins_ok(fn, rc[0], {"_V_ci": CI}),
                   "compressed arm does not continue with pos[positions] (the last pos entry) positions")
-    s_ = u(ix.func(f"{T_MOD}.Tensor.taco_vals").node)
-    check("tensor.py:Tensor.taco_vals:one value per position", "return list(cffi_vals[0:nnz])" in s_, "vals are not read for exactly the positions of the last level")
-    s_ = u(ix.func("tensora.compile._cffi_ownership.taco_structure_to_cffi").node)
-    check("compile/_cffi_ownership.py:taco_structure_to_cffi:one value per position", "len(vals) != nnz" in s_, "length of vals is not validated against the positions of the last level")
+            rv = tsolve([fn], ["return list(_V_cv[0:_V_nnz])"], bind)
+            check("tensor.py:Tensor.taco_vals:one value per position", rv is not None and origins_ok(fn, rv[0], {"_V_cv": CV}),
+                  "vals are not read for exactly the positions of the last level")
     # items
+    itf = ix.func(f"{T_MOD}.Tensor.items").node
     rec = ix.func(f"{T_MOD}.Tensor.items.<locals>.recurse").node
-    s_ = u(rec)
-    check("tensor.py:Tensor.items.recurse:dense addressing", "next_position = level_dimensions[i_level] * position + index" in s_ and "for index in range(level_dimensions[i_level]):" in s_,
-          "dense level is not walked as position * dimension + index for every index of the level's dimension")
-    check("tensor.py:Tensor.items.recurse:compressed addressing",
-          "start = cffi_indexes[i_level][0][position]" in s_ and "end = cffi_indexes[i_level][0][position + 1]" in s_ and "for next_position in range(start, end):" in s_ and "index = cffi_indexes[i_level][1][next_position]" in s_,
-          "compressed level is not walked over [pos[p], pos[p + 1]) reading crd at each position")
-    check("tensor.py:Tensor.items.recurse:value at the last position", "yield (coordinate, cffi_values[position])" in s_ and "if i_level < order:" in s_,
-          "the value is not read at the position reached after the last level")
-    itm = u(ix.func(f"{T_MOD}.Tensor.items").node)
-    check("tensor.py:Tensor.items:level dimensions", "level_dimensions = [dimensions[i] for i in mode_ordering]" in itm and "yield from recurse(0, (), 0)" in itm,
+    pr = [a.arg for a in rec.args.args]
+    r0 = tsolve([itf], ["_V_ld = [_V_dims[_V_i] for _V_i in _V_ord]", f"yield from {rec.name}(0, (), 0)"], {})
+    ok0 = r0 is not None and origins_ok(itf, r0[0], {"_V_dims": DIMS, "_V_ord": ORD}) and len(pr) == 3
+    check("tensor.py:Tensor.items:level dimensions", ok0,
           "level dimensions are not the dimensions permuted by mode_ordering, or the walk does not start at level 0, position 0")
+    if ok0:
+        bind = {"_V_ld": r0[0]["_V_ld"], "_V_l": pr[0], "_V_prefix": pr[1], "_V_position": pr[2]}
+        dense_ok = False
+        comp_ok = False
+        for n in ast.walk(rec):
+            if isinstance(n, ast.For) and isinstance(n.target, ast.Name):
+                bb = dict(bind)
+                bb["_V_index"] = n.target.id
+                if tsolve([n.iter], ["range(_V_ld[_V_l])"], bb) is not None:
+                    for alt in ("_V_np = _V_ld[_V_l] * _V_position + _V_index", "_V_np = _V_position * _V_ld[_V_l] + _V_index"):
+                        rr = tsolve(n.body, [alt, f"yield from {rec.name}(_V_l + 1, (*_V_prefix, _V_index), _V_np)"], bb)
+                        if rr is not None:
+                            dense_ok = True
+                bb = dict(bind)
+                bb["_V_np"] = n.target.id
+                r1 = tsolve([n.iter], ["range(_V_start, _V_end)"], bb)
+                if r1 is not None:
+                    r2 = tsolve([rec], ["_V_start = _V_ci[_V_l][0][_V_position]", "_V_end = _V_ci[_V_l][0][_V_position + 1]"], r1[0])
+                    r3 = tsolve(n.body, ["_V_index = _V_ci[_V_l][1][_V_np]", f"yield from {rec.name}(_V_l + 1, (*_V_prefix, _V_index), _V_np)"], r2[0]) if r2 else None
+                    if r3 is not None and origins_ok(itf, r3[0], {"_V_ci": CI}):
+                        comp_ok = True
+        check("tensor.py:Tensor.items.recurse:dense addressing", dense_ok,
+              "dense level is not walked as position * dimension + index for every index of the level's dimension")
+        check("tensor.py:Tensor.items.recurse:compressed addressing", comp_ok,
+              "compressed level is not walked over [pos[p], pos[p + 1]) reading crd at each position")
+        rv = tsolve([rec], ["yield (_E_c, _V_cv[_V_position])"], bind)
+        guard = any(isinstance(n, ast.If) and re.fullmatch(rf"{pr[0]} < \w+", u(n.test)) and _origin(itf, u(n.test).split(' < ')[1]) in ("self.order", "order") for n in ast.walk(rec))
+        check("tensor.py:Tensor.items.recurse:value at the last position", rv is not None and origins_ok(itf, rv[0], {"_V_cv": CV}) and guard,
+              "the value is not read at the position reached after the last level")
 
 
 def rule_validation_dominates(ctx, ix):
@@ -366,27 +437,45 @@ def rule_validation_dominates(ctx, ix):
             ctx.ok("C09.validation", key)
         else:
             ctx.fail("C09.validation", key, "the permutation requirement is not checked at the top level of the function before anything is built")
-    # taco_structure_to_cffi validation clauses
+    # taco_structure_to_cffi validation clauses (templates; local names are metavariables)
+    from .core import tsolve
+
     fn = ix.func("tensora.compile._cffi_ownership.taco_structure_to_cffi").node
-    s = u(fn)
+    loop, lv, dense, comp = _level_walk(fn)
+    bind = None
+    if loop is not None and dense is not None and comp is not None:
+        r = tsolve(comp, ["_V_pos = indices[_V_lv][0]", "_V_crd = indices[_V_lv][1]", "_V_nnz = len(_V_crd)"], {"_V_lv": lv})
+        bind = r[0] if r else None
     clauses = {
-        "pos length": "len(pos) != nnz + 1",
-        "pos[0] == 0": "pos[0] != 0",
-        "pos non-decreasing": "not weakly_increasing(pos)",
-        "crd length": "len(crd) != pos[-1]",
-        "crd range": "not all((0 <= x < dimensions[mode_ordering[i_level]] for x in crd))",
-        "vals length": "len(vals) != nnz",
-        "dense level empty": "len(indices[i_level]) != 0",
+        "pos length": (comp, "len(_V_pos) != _V_nnz + 1"),
+        "pos[0] == 0": (comp, "_V_pos[0] != 0"),
+        "pos non-decreasing": (comp, "not weakly_increasing(_V_pos)"),
+        "crd length": (comp, "len(_V_crd) != _V_pos[-1]"),
+        "crd range": (comp, "not all((0 <= _V_x < dimensions[mode_ordering[_V_lv]] for _V_x in _V_crd))"),
+        "vals length": ([fn], "len(vals) != _V_nnz"),
+        "dense level empty": (dense, "len(indices[_V_lv]) != 0"),
     }
-    for name, test in clauses.items():
+    for name, (scope, test) in clauses.items():
         ctx.instance("C09.validation")
         key = f"compile/_cffi_ownership.py:taco_structure_to_cffi:{name}"
+        if bind is None:
+            ctx.fail("C09.validation", key, "the level walk with `pos = indices[level][0]; crd = indices[level][1]; positions = len(crd)` was not found")
+            continue
         found = False
-        for n in ast.walk(fn):
-            if isinstance(n, ast.If) and u(n.test) == test and any(isinstance(x, ast.Raise) for x in n.body):
-                found = True
+        bb = _if_raises(scope, test, bind)
+        if bb is not None:
+            # the clause must be unconditional within its arm: the if sits directly in the arm / function body
+            from .core import _pat, tmatch
+
+            for st in scope if scope is not None else []:
+                tops = st.body if isinstance(st, ast.FunctionDef) else [st]
+                for top in tops:
+                    if isinstance(top, ast.If) and any(isinstance(x, ast.Raise) for x in top.body) and tmatch(_pat(test), top.test, dict(bind)):
+                        found = True
         if found:
             ctx.ok("C09.validation", key)
+        elif bb is not None:
+            ctx.fail("C09.validation", key, f"validation clause `{test}` -> raise is only applied conditionally (nested under another statement)")
         else:
             ctx.fail("C09.validation", key, f"validation clause `{test}` -> raise is missing")
     # ... and the validation precedes the construction of the arrays
